@@ -30,3 +30,22 @@ Definition returns_original (k:dkind) (scripting enabled:bool) : bool :=
   | KFunction | KDataclass => scripting || negb enabled
   | KNamedTuple => negb enabled
   end.
+
+(* backend selection: _dtypes.py (supported array types) and dltype/__init__.py (class family) *)
+From DL Require Import Dtypes.
+Inductive family := FamUniversal | FamTorch | FamNumpy.
+(* the if / elif chain of dltype/__init__.py; None = ImportError *)
+Definition select_family (n t:bool) : option family :=
+  if t && n then Some FamUniversal else if t then Some FamTorch else if n then Some FamNumpy else None.
+(* the if / elif chain of _dtypes.py; None = ImportError *)
+Definition supported_types (n t j:bool) : option (list lib) :=
+  if n && negb t && negb j then Some [LNumpy] else
+  if negb n && t then Some [LTorch] else
+  if n && negb t && j then Some [LNumpy; LJax] else
+  if n && t && negb j then Some [LTorch; LNumpy] else
+  if n && t && j then Some [LNumpy; LJax; LTorch] else None.
+(* an installation with jax but without numpy does not exist *)
+Definition realisable (n t j:bool) : bool := implb j n.
+(* the entries of a DTYPES tuple that belong to importable libraries *)
+Definition restrict (n t:bool) (l:list dtok) : list dtok :=
+  filter (fun e => if dtok_lib_is_torch e then t else n) l.
